@@ -139,6 +139,11 @@ impl<'a> Tr<'a> {
                 }
             }
         }
+        for b in &f.extra_binders {
+            if !binders.contains(b) {
+                binders.push(b.clone());
+            }
+        }
         *self.ambient.borrow_mut() = binders.clone();
         let mut destructure: Vec<(Pat, String, Ty)> = Vec::new();
         for p in &f.params {
@@ -169,15 +174,29 @@ impl<'a> Tr<'a> {
             env = e2;
             prefix.push_str(&s);
         }
+        if let Some(fu) = &f.fuel {
+            let mut t = fu.clone();
+            for (j, p) in f.params.iter().enumerate().rev() {
+                t = t.replace(&format!("${}", j), &self.coq_name(&p.name));
+            }
+            prefix.push_str(&format!("let tr_fuel_ := {} in\n  ", t));
+        }
         let body = match &f.body {
             Body::Block(b) => {
                 if f.identity_ctor {
                     return Err("identity_ctor entries are not translated".into());
                 }
                 if f.loop_body {
-                    let lp = match b.stmts.as_slice() {
-                        [Stmt::Expr(Expr::Loop(l), _)] if l.label.is_none() => l,
-                        _ => return Err(format!("loop_body: the body of {} is not a single `loop`", f.label)),
+                    let body_stmts: Vec<Stmt> = if f.while_body {
+                        match b.stmts.iter().find_map(|s| if let Stmt::Expr(Expr::While(w), _) = s { Some(w) } else { None }) {
+                            Some(w) if w.label.is_none() => w.body.stmts.clone(),
+                            _ => return Err(format!("while_body: no top-level `while` in {}", f.label)),
+                        }
+                    } else {
+                        match b.stmts.as_slice() {
+                            [Stmt::Expr(Expr::Loop(l), _)] if l.label.is_none() => l.body.stmts.clone(),
+                            _ => return Err(format!("loop_body: the body of {} is not a single `loop`", f.label)),
+                        }
                     };
                     if f.mut_params.is_empty() {
                         return Err("loop_body: no `&mut` state".into());
@@ -188,7 +207,7 @@ impl<'a> Tr<'a> {
                     }
                     let cont = format!("({})", parts.join(", "));
                     self.loops.borrow_mut().push((cont.clone(), "tr_break_outside_the_step".to_string()));
-                    let r = self.block(&lp.body.stmts, &env, None, &|_v: Val| Ok(cont.clone()));
+                    let r = self.block(&body_stmts, &env, None, &|_v: Val| Ok(cont.clone()));
                     self.loops.borrow_mut().pop();
                     r?
                 } else {
@@ -259,6 +278,7 @@ impl<'a> Tr<'a> {
             (Ty::Unknown, _) | (_, Ty::Unknown) => true,
             (Ty::Tuple(a), Ty::Tuple(b)) => a.len() == b.len() && a.iter().zip(b).all(|(x, y)| self.compatible(x, y)),
             (Ty::Opt(a), Ty::Opt(b)) => self.compatible(a, b),
+            (Ty::Res(a, e), Ty::Res(b, f)) => self.compatible(a, b) && self.compatible(e, f),
             (Ty::List(a), Ty::List(b)) => self.compatible(a, b),
             (a, b) => a == b,
         }
@@ -366,7 +386,7 @@ impl<'a> Tr<'a> {
     /// A unit-valued tail expression that acts on the state (assignment, push, an `if` that assigns).
     fn statement_like(&self, e: &Expr, env: &Env) -> bool {
         match e {
-            Expr::Assign(_) | Expr::Break(_) | Expr::Continue(_) | Expr::ForLoop(_) => true,
+            Expr::Assign(_) | Expr::Break(_) | Expr::Continue(_) | Expr::ForLoop(_) | Expr::While(_) => true,
             Expr::Binary(b) => compound_op(&b.op).is_some(),
             Expr::MethodCall(mc) => is_list_mutator(&mc.method.to_string()),
             Expr::If(_) | Expr::Block(_) | Expr::Match(_) => {
@@ -508,6 +528,26 @@ impl<'a> Tr<'a> {
                 let r = self.block(rest, &env2, exp, k)?;
                 Ok(format!("let {} := {} in\n  {}", name, whole, r))
             }
+            Expr::MethodCall(mc) if matches!(mc.args.last(), Some(Expr::Closure(_))) && self.callback_target(mc, env).is_some() => {
+                // recv.f(args.., |a, b, c| { X.curve_to(a, b, c); }) for an extern `f` that only feeds its callback:
+                // X grows by the list the spec names (the model's list of the CurveTo elements)
+                let (i, place) = self.callback_target(mc, env).unwrap();
+                let f = &self.ctx.fns[i];
+                let recv = self.expr(&mc.receiver, env, None)?;
+                let mut ts = vec![recv.t];
+                for a in mc.args.iter().take(mc.args.len() - 1) {
+                    ts.push(self.expr(a, env, None)?.t);
+                }
+                let mut t = f.callback_append.clone().unwrap();
+                for (j, a) in ts.iter().enumerate().rev() {
+                    t = t.replace(&format!("${}", j), a);
+                }
+                self.check_ambient_use(e, &t, f)?;
+                let cur = self.expr(&place, env, None)?;
+                let (name, whole) = self.update_place(&place, format!("({} ++ {})", cur.t, t), env)?;
+                let r = self.block(rest, env, exp, k)?;
+                Ok(format!("let {} := {} in\n  {}", name, whole, r))
+            }
             Expr::Call(_) | Expr::MethodCall(_) => {
                 // a procedure call: its `&mut` arguments are rebound, its value (if any) is dropped
                 let cont = |_v: Val| -> R<String> { self.block(rest, env, exp, k) };
@@ -538,7 +578,8 @@ impl<'a> Tr<'a> {
                     }
                 }
             }
-            Expr::While(_) | Expr::Loop(_) => self.err(e, "untranslatable: `while`/`loop` (no structural bound)"),
+            Expr::While(w) => self.while_loop(w, rest, env, exp, k),
+            Expr::Loop(_) => self.err(e, "untranslatable: `loop` (no structural bound)"),
             Expr::Macro(m) => self.err(e, format!("untranslatable: macro {}!", norm_tokens(&m.mac.path))),
             _ => self.err(e, "untranslatable: expression statement"),
         }
@@ -754,6 +795,219 @@ impl<'a> Tr<'a> {
         }
     }
 
+    /// `while COND { BODY }` / `while let PAT = E { BODY }` as a recursion on a fuel bound given in the spec
+    /// (`tr_fuel_`); when the fuel runs out the loop is left as if its test had failed -- the simulation
+    /// lemma, proved for every input, is what shows the bound sufficient.
+    fn while_loop(&self, w: &syn::ExprWhile, rest: &[Stmt], env: &Env, exp: Option<&Ty>, k: &K) -> R<String> {
+        if w.label.is_some() {
+            return self.err(w, "untranslatable: labelled loop");
+        }
+        if self.f.fuel.is_none() {
+            return self.err(w, "untranslatable: `while` (the spec gives no iteration bound for this function)");
+        }
+        let whole = Expr::While(w.clone());
+        let body_e = Expr::Block(syn::ExprBlock { attrs: vec![], label: None, block: w.body.clone() });
+        let mut assigned = Vec::new();
+        let mut declared = Vec::new();
+        collect_mut(&w.cond, &mut assigned, &mut declared, self.mut_methods);
+        let mut muts = self.mutated_outer(&body_e, env)?;
+        for a in assigned {
+            if env.get(&a).is_some() && !muts.contains(&a) {
+                muts.push(a);
+            }
+        }
+        let order: Vec<String> = env.vars.iter().map(|v| v.0.clone()).collect();
+        muts.sort_by_key(|n| order.iter().rposition(|x| x == n).unwrap_or(0));
+        let has_return = {
+            use syn::visit::Visit;
+            struct V(bool);
+            impl<'ast> Visit<'ast> for V {
+                fn visit_expr_return(&mut self, _: &'ast syn::ExprReturn) {
+                    self.0 = true;
+                }
+                fn visit_expr_try(&mut self, _: &'ast syn::ExprTry) {
+                    self.0 = true;
+                }
+                fn visit_expr_closure(&mut self, _: &'ast syn::ExprClosure) {}
+                fn visit_item(&mut self, _: &'ast syn::Item) {}
+            }
+            let mut v = V(false);
+            v.visit_expr(&whole);
+            v.0
+        };
+        if muts.is_empty() {
+            return self.err(w, "untranslatable: loop without effect on the translated state");
+        }
+        let n = {
+            let mut c = self.counter.borrow_mut();
+            *c += 1;
+            *c
+        };
+        let (lp, fv, gv) = (format!("tr_while{}", n), format!("tr_f{}", n), format!("tr_g{}", n));
+        let names: Vec<String> = muts.iter().map(|m| env.get(m).unwrap().1.clone()).collect();
+        let mut binders = String::new();
+        for m in &muts {
+            let (_, c, ty) = env.get(m).unwrap();
+            let ct = self.ctx.coq_ty(ty).unwrap_or_else(|_| "_".to_string());
+            binders.push_str(&format!(" ({} : {})", c, ct));
+        }
+        let tuple = if names.len() == 1 { names[0].clone() } else { format!("({})", names.join(", ")) };
+        let end_term = if has_return { self.block(rest, env, exp, k)? } else { tuple.clone() };
+        let cont_term = format!("({} {}{})", lp, gv, names.iter().map(|x| format!(" {}", x)).collect::<String>());
+        self.loops.borrow_mut().push((cont_term.clone(), end_term.clone()));
+        let ct2 = cont_term.clone();
+        let et2 = end_term.clone();
+        let body_k = |_v: Val| -> R<String> { Ok(format!("{}{}", self.flush(env)?, ct2)) };
+        let test = match &*w.cond {
+            Expr::Let(l) => {
+                let pat = (*l.pat).clone();
+                let cont = |v: Val| -> R<String> {
+                    let arms: Vec<(Pat, Box<dyn Fn(&Env) -> R<String> + '_>)> = vec![
+                        (pat.clone(), Box::new(|e2: &Env| match &self.f.while_step {
+                            Some(g) => self.step_call(w, g, e2, &ct2, n),
+                            None => self.block(&w.body.stmts, e2, None, &body_k),
+                        })),
+                        (syn::parse_quote!(_), Box::new(|_e2: &Env| Ok(et2.clone()))),
+                    ];
+                    self.match_on(w, v, env, arms)
+                };
+                self.eval_k(&l.expr, env, None, &cont)
+            }
+            c => {
+                let cv = self.expr(c, env, Some(&Ty::Bool));
+                match cv {
+                    Ok(cv) => {
+                        self.check_ty(&cv.ty, &Ty::Bool, "loop condition")?;
+                        let b = self.block(&w.body.stmts, env, None, &body_k);
+                        b.map(|b| format!("(if {} then\n  {}\n  else\n  {})", cv.t, b, et2))
+                    }
+                    Err(e) => Err(e),
+                }
+            }
+        };
+        self.loops.borrow_mut().pop();
+        let test = test?;
+        let fix = format!(
+            "((fix {lp} ({fv} : nat){bs} {{struct {fv}}} := match {fv} with\n  | O => {end}\n  | S {gv} => {test}\n  end) tr_fuel_{args})",
+            lp = lp,
+            fv = fv,
+            bs = binders,
+            end = end_term,
+            gv = gv,
+            test = test,
+            args = names.iter().map(|x| format!(" {}", x)).collect::<String>()
+        );
+        if has_return {
+            Ok(fix)
+        } else {
+            let r = self.block(rest, env, exp, k)?;
+            if names.len() == 1 {
+                Ok(format!("let {} := {} in\n  {}", tuple, fix, r))
+            } else {
+                Ok(format!("let '{} := {} in\n  {}", tuple, fix, r))
+            }
+        }
+    }
+
+    /// `while_step`: one iteration of the loop is the generated step function `g` (translated from the same loop body
+    /// under its own spec entry): `Some r` returns `r` from the function, `None` goes round again with the new state
+    fn step_call(&self, w: &syn::ExprWhile, g: &str, env: &Env, cont: &str, n: usize) -> R<String> {
+        let i = match self.ctx.fns.iter().position(|x| x.gen == g && x.while_body) {
+            Some(i) => i,
+            None => return self.err(w, format!("while_step: no `while_body_state` entry with gen `{}` in the spec", g)),
+        };
+        let sf = &self.ctx.fns[i];
+        if sf.file != self.f.file || sf.name != self.f.name || sf.impl_ty != self.f.impl_ty {
+            return self.err(w, format!("while_step: `{}` is not the loop body of this function", g));
+        }
+        if !self.f.mut_params.is_empty() {
+            return self.err(w, "untranslatable: while_step in a function with `&mut` parameters");
+        }
+        self.deps.borrow_mut().insert(i);
+        let mut args: Vec<String> = Vec::new();
+        let mut amb: Vec<String> = Vec::new();
+        for p in &sf.params {
+            if let Ty::Named(tn) = p.ty.strip_into() {
+                for b in &self.ctx.types[tn].ambient_binders {
+                    if !amb.contains(&b.0) {
+                        amb.push(b.0.clone());
+                    }
+                }
+            }
+        }
+        for b in &sf.extra_binders {
+            if !amb.contains(&b.0) {
+                amb.push(b.0.clone());
+            }
+        }
+        for a in &amb {
+            if !self.ambient.borrow().iter().any(|x| &x.0 == a) {
+                return self.err(w, format!("untranslatable: the step function needs the ambient `{}` which is not in scope", a));
+            }
+        }
+        args.extend(amb);
+        let mut outs = vec![format!("tr_r{}", n)];
+        for (j, p) in sf.params.iter().enumerate() {
+            let (_, c, ty) = match env.get(&p.name) {
+                Some(x) => x,
+                None => return self.err(w, format!("while_step: the state variable `{}` is not in scope at the loop", p.name)),
+            };
+            if !self.compatible(ty, &p.ty) {
+                return self.err(w, format!("while_step: `{}` has type {} here, {} in the step function", p.name, ty.show(), p.ty.show()));
+            }
+            args.push(c.clone());
+            if sf.mut_params.contains(&j) {
+                outs.push(c.clone());
+            }
+        }
+        Ok(format!(
+            "let '({}) := ({} {}) in\n  (match tr_r{} with\n  | Some tr_v{} => tr_v{}\n  | None => {}\n  end)",
+            outs.join(", "),
+            sf.gen,
+            args.join(" "),
+            n,
+            n,
+            n,
+            cont
+        ))
+    }
+
+    /// the spec function behind `recv.f(.., |a,b,c| { X.curve_to(a,b,c); })` and the place X, if the call has that shape
+    fn callback_target(&self, mc: &syn::ExprMethodCall, env: &Env) -> Option<(usize, Expr)> {
+        let cl = match mc.args.last() {
+            Some(Expr::Closure(c)) => c,
+            _ => return None,
+        };
+        let recv = self.expr(&mc.receiver, env, None).ok()?;
+        let tn = match recv.ty.strip_into() {
+            Ty::Named(n) => n.clone(),
+            _ => return None,
+        };
+        let i = self.ctx.lookup(&tn, &mc.method.to_string()).into_iter().find(|&i| self.ctx.fns[i].callback_append.is_some())?;
+        // |a, b, c| { X.curve_to(a, b, c); }
+        let names: Vec<String> = cl.inputs.iter().filter_map(|p| if let Pat::Ident(pi) = p { Some(pi.ident.to_string()) } else { None }).collect();
+        if names.len() != 3 || cl.inputs.len() != 3 {
+            return None;
+        }
+        let inner = match &*cl.body {
+            Expr::Block(b) if b.block.stmts.len() == 1 => match &b.block.stmts[0] {
+                Stmt::Expr(Expr::MethodCall(m2), _) => m2.clone(),
+                _ => return None,
+            },
+            Expr::MethodCall(m2) => m2.clone(),
+            _ => return None,
+        };
+        if inner.method != "curve_to" || inner.args.len() != 3 {
+            return None;
+        }
+        for (a, n) in inner.args.iter().zip(names.iter()) {
+            if norm_tokens(a) != *n {
+                return None;
+            }
+        }
+        Some((i, (*inner.receiver).clone()))
+    }
+
     fn panic_default(&self, t: &Ty) -> Option<String> {
         let key = match t {
             Ty::F64 => "f64".to_string(),
@@ -800,6 +1054,44 @@ impl<'a> Tr<'a> {
                     return Ok(format!("let {} := {} in\n  let {} := {} in\n  {}", t, cur.t, name, whole, r));
                 }
                 self.err(e, "untranslatable: `take` on a non-option")
+            }
+            Expr::MethodCall(mc) if mc.method == "map" && mc.args.len() == 1 && matches!(&mc.args[0], Expr::Closure(_)) && {
+                let body = match &mc.args[0] { Expr::Closure(c) => (*c.body).clone(), _ => unreachable!() };
+                self.mutated_outer(&body, env).map(|m| !m.is_empty()).unwrap_or(true)
+            } => {
+                // `opt.map(|x| { effects; value })`: the closure runs at most once, right here
+                let cl = match &mc.args[0] { Expr::Closure(c) => c, _ => unreachable!() };
+                if cl.inputs.len() != 1 || contains_return(&cl.body) {
+                    return self.err(e, "untranslatable: this closure");
+                }
+                let recv = self.expr(&mc.receiver, env, None)?;
+                if !matches!(recv.ty, Ty::Opt(_)) {
+                    return self.err(e, "untranslatable: effectful closure in a `map` that is not on an option");
+                }
+                let body = (*cl.body).clone();
+                let some_k = |v: Val| -> R<String> { k(val(format!("(Some {})", v.t), Ty::Opt(Box::new(v.ty.strip_into().clone())))) };
+                let arms: Vec<(Pat, Box<dyn Fn(&Env) -> R<String> + '_>)> = vec![
+                    (syn::parse_quote!(Some(__tr_it)), Box::new(|e2: &Env| {
+                        let it = e2.get("__tr_it").unwrap().clone();
+                        let (e3, pre) = self.bind_pat(&cl.inputs[0], val(it.1, it.2), e2)?;
+                        Ok(format!("{}{}", pre, self.block(&[Stmt::Expr(body.clone(), None)], &e3, None, &some_k)?))
+                    })),
+                    (syn::parse_quote!(_), Box::new(|_e2: &Env| k(val("None".into(), Ty::Opt(Box::new(Ty::Unknown)))))),
+                ];
+                self.match_on(e, recv, env, arms)
+            }
+            Expr::MethodCall(mc) if matches!(strip_parens(&mc.receiver), Expr::MethodCall(r) if self.mut_methods.contains(&r.method.to_string())) && !self.mut_methods.contains(&mc.method.to_string()) => {
+                // `self.get_byte().ok_or(E)`: the mutating call first, then the pure method on its value
+                let mc2 = mc.clone();
+                let cont = |v: Val| -> R<String> {
+                    let mut env2 = env.clone();
+                    env2.vars.push(("__tr_hole".to_string(), v.t.clone(), v.ty.clone()));
+                    let mut call = mc2.clone();
+                    call.receiver = Box::new(syn::parse_quote!(__tr_hole));
+                    let r = self.expr(&Expr::MethodCall(call), &env2, exp)?;
+                    k(r)
+                };
+                self.eval_k(&mc.receiver, env, None, &cont)
             }
             Expr::Call(c) if norm_tokens(&*c.func).ends_with("verif::tick") => k(val("tt".into(), Ty::Unit)),
             Expr::Call(_) | Expr::MethodCall(_) => {
@@ -892,6 +1184,13 @@ impl<'a> Tr<'a> {
     /// the branches (the continuation is duplicated); otherwise `e` is translated as a pure expression.
     fn expr_k(&self, e: &Expr, env: &Env, exp: Option<&Ty>, k: &K) -> R<String> {
         if !contains_return(e) {
+            let e0 = strip_parens(e);
+            if matches!(e0, Expr::Block(_) | Expr::If(_) | Expr::Match(_)) {
+                let effectful = contains_replace(e0) || self.mutated_outer(e0, env).map(|m| !m.is_empty()).unwrap_or(true);
+                if effectful {
+                    return self.expr_k_compound(e0, env, exp, k);
+                }
+            }
             let v = self.expr(e, env, exp)?;
             return k(v);
         }
@@ -926,10 +1225,33 @@ impl<'a> Tr<'a> {
             Expr::Match(m) => self.match_k(m, env, exp, k),
             Expr::Try(t) => {
                 // `e?` on an option in a function returning an option: `None` leaves the function
-                if !matches!(self.f.ret, Ty::Opt(_)) {
-                    return self.err(e, "untranslatable: `?` outside a function returning Option");
+                if !matches!(self.f.ret, Ty::Opt(_) | Ty::Res(..)) {
+                    return self.err(e, "untranslatable: `?` outside a function returning Option/Result");
                 }
                 let cont = |v: Val| -> R<String> {
+                    if let Ty::Res(a, en) = &v.ty {
+                        // `e?` on a Result: the error leaves the function (same error type: no conversion)
+                        let (ra, re) = match &self.f.ret {
+                            Ty::Res(ra, re) => ((**ra).clone(), (**re).clone()),
+                            _ => return self.err(e, "untranslatable: `?` on a Result in a function not returning a Result"),
+                        };
+                        if !self.compatible(en, &re) {
+                            return self.err(e, "untranslatable: `?` with an error conversion");
+                        }
+                        let ctors = match &re {
+                            Ty::Named(x) => self.ctx.results.get(x).cloned(),
+                            _ => None,
+                        };
+                        let ctors = match ctors {
+                            Some(c) => c,
+                            None => return self.err(e, "untranslatable: Result error type not in the spec"),
+                        };
+                        let x = self.tmp(env);
+                        let y = self.tmp(env);
+                        let ok = k(val(x.clone(), (**a).clone()))?;
+                        let er = self.finish_env(val(format!("({} {})", ctors.2, y), Ty::Res(Box::new(ra), Box::new(re))), env)?;
+                        return Ok(format!("(match {} with\n  | {} {} => {}\n  | {} {} => {}\n  end)", v.t, ctors.1, x, ok, ctors.2, y, er));
+                    }
                     let inner = match &v.ty {
                         Ty::Opt(t) => (**t).clone(),
                         t => return self.err(e, format!("untranslatable: `?` on type {}", t.show())),
@@ -940,6 +1262,19 @@ impl<'a> Tr<'a> {
                     Ok(format!("(match {} with\n  | Some {} => {}\n  | None => {}\n  end)", v.t, x, some, none))
                 };
                 self.eval_k(&t.expr, env, None, &cont)
+            }
+            Expr::MethodCall(mc) if contains_return(&mc.receiver) && !mc.args.iter().any(|a| contains_return(a)) => {
+                // <expression with control flow>.method(args): the method is applied where a value is produced
+                let mc2 = mc.clone();
+                let cont = |v: Val| -> R<String> {
+                    let mut env2 = env.clone();
+                    env2.vars.push(("__tr_hole".to_string(), v.t.clone(), v.ty.clone()));
+                    let mut call = mc2.clone();
+                    call.receiver = Box::new(syn::parse_quote!(__tr_hole));
+                    let r = self.expr(&Expr::MethodCall(call), &env2, exp)?;
+                    k(r)
+                };
+                self.expr_k(&mc.receiver, env, None, &cont)
             }
             Expr::Call(c) if c.args.len() == 1 && !contains_return(&c.func) => {
                 // f(<expression with control flow>): the call is applied in each branch that yields a value
@@ -1200,6 +1535,10 @@ impl<'a> Tr<'a> {
                 UnOp::Neg(_) => {
                     // a negated literal is a negative literal (the compiler folds it exactly)
                     if let Expr::Lit(l) = strip_paren_lit(&u.expr) {
+                        if self.f.neg_literal_op && matches!(l.lit, syn::Lit::Float(_)) {
+                            let v = self.literal(e, &l.lit, false, exp)?;
+                            return Ok(val(format!("(- {})", v.t), Ty::F64));
+                        }
                         return self.literal(e, &l.lit, true, exp);
                     }
                     let v = self.expr(&u.expr, env, exp)?;
@@ -1412,7 +1751,7 @@ impl<'a> Tr<'a> {
                 let v = self.expr(&c.expr, env, None)?;
                 let to = self.ctx.ty_of(&c.ty, self.f.self_ty.as_ref(), None, &self.generics());
                 match (&v.ty, &to) {
-                    (Ty::F64, Ty::F64) | (Ty::Int, Ty::Int) => Ok(v),
+                    (Ty::F64, Ty::F64) | (Ty::Int, Ty::Int) | (Ty::Nat, Ty::Nat) => Ok(v),
                     // exact for the small integers this is used on (signs, counters)
                     (Ty::Int, Ty::F64) => Ok(val(format!("(fofZ {})", v.t), Ty::F64)),
                     // `x as usize` (saturating, NaN -> 0): the Scalar operation of that name
@@ -1424,6 +1763,44 @@ impl<'a> Tr<'a> {
             Expr::Closure(_) => self.err(e, "untranslatable: closure"),
             Expr::Macro(m) => {
                 let name = norm_tokens(&m.mac.path);
+                if name == "matches" {
+                    use syn::parse::Parser;
+                    let parser = |input: syn::parse::ParseStream| -> syn::Result<(Expr, Pat)> {
+                        let e: Expr = input.parse()?;
+                        input.parse::<syn::Token![,]>()?;
+                        let p = Pat::parse_multi_with_leading_vert(input)?;
+                        Ok((e, p))
+                    };
+                    let (se, sp) = match parser.parse2(m.mac.tokens.clone()) {
+                        Ok(x) => x,
+                        Err(_) => return self.err(e, "untranslatable: this use of matches!"),
+                    };
+                    let sv = self.expr(&se, env, None)?;
+                    if sv.ty != Ty::Int {
+                        return self.err(e, "untranslatable: matches! on a non-integer");
+                    }
+                    fn lits(tr: &Tr, p: &Pat, out: &mut Vec<String>) -> R<()> {
+                        match p {
+                            Pat::Lit(l) => {
+                                let v = tr.expr(&Expr::Lit(l.clone()), &Env::new(), Some(&Ty::Int))?;
+                                out.push(v.t);
+                                Ok(())
+                            }
+                            Pat::Or(o) => {
+                                for c in &o.cases {
+                                    lits(tr, c, out)?;
+                                }
+                                Ok(())
+                            }
+                            Pat::Paren(q) => lits(tr, &q.pat, out),
+                            _ => tr.err(p, "untranslatable: pattern in matches!"),
+                        }
+                    }
+                    let mut ls = Vec::new();
+                    lits(self, &sp, &mut ls)?;
+                    let t = ls.iter().map(|l| format!("(Z.eqb {} {})", sv.t, l)).collect::<Vec<_>>().join(" || ");
+                    return Ok(val(format!("({})", t), Ty::Bool));
+                }
                 if name == "panic" || name == "unreachable" {
                     // a panic is represented by the spec's default of the expected type, as in the hand models
                     if let Some(d) = exp.and_then(|t| self.panic_default(t)) {
@@ -1513,6 +1890,18 @@ impl<'a> Tr<'a> {
     }
 
     fn match_k(&self, m: &syn::ExprMatch, env: &Env, exp: Option<&Ty>, k0: &K) -> R<String> {
+        let effectful = contains_return(&m.expr) || matches!(strip_parens(&m.expr), Expr::MethodCall(r) if self.mut_methods.contains(&r.method.to_string()));
+        if effectful {
+            // the scrutinee has effects (`self.get_byte().ok_or(E)?`): evaluate it first
+            let cont = |v: Val| -> R<String> {
+                let mut env2 = env.clone();
+                env2.vars.push(("__tr_scrut".to_string(), v.t.clone(), v.ty.clone()));
+                let mut m2 = m.clone();
+                m2.expr = Box::new(syn::parse_quote!(__tr_scrut));
+                self.match_k(&m2, &env2, exp, k0)
+            };
+            return self.eval_k(&m.expr, env, None, &cont);
+        }
         let scrut = self.expr(&m.expr, env, None)?;
         let mut arms = Vec::new();
         // the type of the first arms is the expected type of the later ones (`panic!()` arms need it)
@@ -1531,24 +1920,42 @@ impl<'a> Tr<'a> {
                     _ => return self.match_guard_chain(m, &scrut, env, exp, k),
                 };
                 for arm in &m.arms {
-                    if arm.guard.is_some() {
-                        return self.err(arm, "untranslatable: match guard");
-                    }
                     let (pat_s, env2, pre) = self.variant_pat(&arm.pat, &variants, &tn, env)?;
                     let cur = seen.borrow().clone();
-                    let body = self.block(&[Stmt::Expr((*arm.body).clone(), None)], &env2, cur.as_ref(), k)?;
+                    let mut body = self.block(&[Stmt::Expr((*arm.body).clone(), None)], &env2, cur.as_ref(), k)?;
+                    if let Some((_, g)) = &arm.guard {
+                        // `PAT if G => A, ..., _ => B`: when the guard fails the value falls to the final `_` arm
+                        let last = m.arms.last().unwrap();
+                        if !matches!(last.pat, Pat::Wild(_)) || last.guard.is_some() || m.arms.iter().filter(|a| a.guard.is_some()).count() != 1 {
+                            return self.err(arm, "untranslatable: match guard (only `PAT if G => .., _ => ..` is supported)");
+                        }
+                        let gv = self.expr(g, &env2, Some(&Ty::Bool))?;
+                        self.check_ty(&gv.ty, &Ty::Bool, "match guard")?;
+                        let cur2 = seen.borrow().clone();
+                        let fb = self.block(&[Stmt::Expr((*last.body).clone(), None)], env, cur2.as_ref(), k)?;
+                        body = format!("(if {} then {} else {})", gv.t, body, fb);
+                    }
                     arms.push(format!("| {} => {}{}", pat_s, pre, body));
                 }
             }
             Ty::Opt(inner) => {
                 let variants = vec![("Some".to_string(), "Some".to_string(), vec![(*inner).clone()]), ("None".to_string(), "None".to_string(), vec![])];
                 for arm in &m.arms {
-                    if arm.guard.is_some() {
-                        return self.err(arm, "untranslatable: match guard");
-                    }
                     let (pat_s, env2, pre) = self.variant_pat(&arm.pat, &variants, "Option", env)?;
                     let cur = seen.borrow().clone();
-                    let body = self.block(&[Stmt::Expr((*arm.body).clone(), None)], &env2, cur.as_ref(), k)?;
+                    let mut body = self.block(&[Stmt::Expr((*arm.body).clone(), None)], &env2, cur.as_ref(), k)?;
+                    if let Some((_, g)) = &arm.guard {
+                        // `PAT if G => A, ..., _ => B`: when the guard fails the value falls to the final `_` arm
+                        let last = m.arms.last().unwrap();
+                        if !matches!(last.pat, Pat::Wild(_)) || last.guard.is_some() || m.arms.iter().filter(|a| a.guard.is_some()).count() != 1 {
+                            return self.err(arm, "untranslatable: match guard (only `PAT if G => .., _ => ..` is supported)");
+                        }
+                        let gv = self.expr(g, &env2, Some(&Ty::Bool))?;
+                        self.check_ty(&gv.ty, &Ty::Bool, "match guard")?;
+                        let cur2 = seen.borrow().clone();
+                        let fb = self.block(&[Stmt::Expr((*last.body).clone(), None)], env, cur2.as_ref(), k)?;
+                        body = format!("(if {} then {} else {})", gv.t, body, fb);
+                    }
                     arms.push(format!("| {} => {}{}", pat_s, pre, body));
                 }
             }
@@ -1560,6 +1967,55 @@ impl<'a> Tr<'a> {
     /// `match v { x if guard => a, ..., _ => z }`: a chain of conditionals on the bound value
     fn match_guard_chain(&self, m: &syn::ExprMatch, scrut: &Val, env: &Env, exp: Option<&Ty>, k: &K) -> R<String> {
         let t = scrut.ty.strip_into().clone();
+        if t == Ty::Int {
+            // `match c { b'm' | b'M' => .., b'z' => .., _ => .. }`: tests in source order
+            fn lits(tr: &Tr, p: &Pat, out: &mut Vec<String>) -> R<()> {
+                match p {
+                    Pat::Lit(l) => {
+                        let e = Expr::Lit(l.clone());
+                        let v = tr.expr(&e, &Env::new(), Some(&Ty::Int))?;
+                        out.push(v.t);
+                        Ok(())
+                    }
+                    Pat::Or(o) => {
+                        for c in &o.cases {
+                            lits(tr, c, out)?;
+                        }
+                        Ok(())
+                    }
+                    Pat::Paren(q) => lits(tr, &q.pat, out),
+                    _ => tr.err(p, "untranslatable: pattern in a match on an integer"),
+                }
+            }
+            let mut out = String::new();
+            let mut closes = 0;
+            let n = m.arms.len();
+            for (i, arm) in m.arms.iter().enumerate() {
+                if arm.guard.is_some() {
+                    return self.err(arm, "untranslatable: match guard");
+                }
+                let body = self.block(&[Stmt::Expr((*arm.body).clone(), None)], env, exp, k)?;
+                if matches!(arm.pat, Pat::Wild(_)) {
+                    if i + 1 != n {
+                        return self.err(arm, "untranslatable: `_` arm that is not the last");
+                    }
+                    out.push_str(&body);
+                } else {
+                    if i + 1 == n {
+                        return self.err(m, "untranslatable: match on an integer without a final `_` arm");
+                    }
+                    let mut ls = Vec::new();
+                    lits(self, &arm.pat, &mut ls)?;
+                    let test = ls.iter().map(|l| format!("(Z.eqb {} {})", scrut.t, l)).collect::<Vec<_>>().join(" || ");
+                    out.push_str(&format!("(if ({}) then\n  {}\n  else\n  ", test, body));
+                    closes += 1;
+                }
+            }
+            for _ in 0..closes {
+                out.push(')');
+            }
+            return Ok(out);
+        }
         let all_guarded = m.arms.iter().enumerate().all(|(i, a)| match (&a.pat, &a.guard) {
             (Pat::Ident(pi), Some(_)) => pi.subpat.is_none() && pi.by_ref.is_none(),
             (Pat::Wild(_), None) => i + 1 == m.arms.len(),
@@ -1677,6 +2133,12 @@ impl<'a> Tr<'a> {
                 }
                 Ok(val(if neg { format!("(-{})%Z", d) } else { format!("({})%Z", d) }, Ty::Int))
             }
+            syn::Lit::Byte(b) => {
+                if neg {
+                    return self.err(at, "minus on a byte literal");
+                }
+                Ok(val(format!("({})%Z", b.value()), Ty::Int))
+            }
             syn::Lit::Bool(b) => {
                 if neg {
                     return self.err(at, "minus on a boolean");
@@ -1703,6 +2165,8 @@ impl<'a> Tr<'a> {
                 BinOp::Ge(_) => sym(">=?", Ty::Bool),
                 BinOp::Eq(_) => sym("=?", Ty::Bool),
                 BinOp::Ne(_) => sym("<>?", Ty::Bool),
+                // f64 `%` (fmod) is not a Scalar operation: the models take it as a parameter
+                BinOp::Rem(_) | BinOp::RemAssign(_) if self.f.extra_binders.iter().any(|b| b.0 == "frem_") => Ok(val(format!("(frem_ {} {})", l.t, r.t), Ty::F64)),
                 _ => self.err(at, "untranslatable: operator on f64"),
             },
             (Ty::Bool, Ty::Bool) => match op {
@@ -1712,6 +2176,7 @@ impl<'a> Tr<'a> {
                 BinOp::BitAnd(_) => Ok(val(format!("(andb {} {})", l.t, r.t), Ty::Bool)),
                 BinOp::BitOr(_) | BinOp::BitOrAssign(_) => Ok(val(format!("(orb {} {})", l.t, r.t), Ty::Bool)),
                 BinOp::Eq(_) => Ok(val(format!("(Bool.eqb {} {})", l.t, r.t), Ty::Bool)),
+                BinOp::Ne(_) => Ok(val(format!("(negb (Bool.eqb {} {}))", l.t, r.t), Ty::Bool)),
                 _ => self.err(at, "untranslatable: operator on bool"),
             },
             (Ty::Nat, Ty::Nat) => {
@@ -1894,7 +2359,7 @@ impl<'a> Tr<'a> {
                 }
             }
         }
-        let template = f.call.clone().or_else(|| if f.model.is_some() { f.model_app.clone() } else { None });
+        let template = f.call.clone().or_else(|| if f.model.is_some() && !f.call_gen { f.model_app.clone() } else { None });
         if let Some(tpl) = template {
             let mut t = tpl;
             for (j, a) in per_param.iter().enumerate().rev() {
@@ -1905,7 +2370,7 @@ impl<'a> Tr<'a> {
         }
         let head = self.head_of(i);
         let mut amb: Vec<String> = Vec::new();
-        if f.model.is_none() {
+        if f.model.is_none() || f.call_gen {
             // a generated callee takes the ambient binders of its state types first
             for p in &f.params {
                 if let Ty::Named(n) = p.ty.strip_into() {
@@ -1940,8 +2405,8 @@ impl<'a> Tr<'a> {
     fn head_of(&self, i: usize) -> String {
         let f = &self.ctx.fns[i];
         match &f.model {
-            Some(m) => m.clone(),
-            None => {
+            Some(m) if !f.call_gen => m.clone(),
+            _ => {
                 self.deps.borrow_mut().insert(i);
                 f.gen.clone()
             }
@@ -2086,6 +2551,36 @@ impl<'a> Tr<'a> {
         }
         if segs.len() == 1 {
             let n = &segs[0];
+            if (n == "Ok" || n == "Err") && c.args.len() == 1 {
+                let want = match exp {
+                    Some(Ty::Res(a, e)) => Some(((**a).clone(), (**e).clone())),
+                    _ => match &self.f.ret {
+                        Ty::Res(a, e) => Some(((**a).clone(), (**e).clone())),
+                        _ => None,
+                    },
+                };
+                let (wa, we) = match want {
+                    Some(x) => x,
+                    None => return self.err(e, "untranslatable: `Ok`/`Err` where the Result type is not known"),
+                };
+                let en = match &we {
+                    Ty::Named(x) => x.clone(),
+                    t => return self.err(e, format!("untranslatable: Result with error type {}", t.show())),
+                };
+                let ctors = match self.ctx.results.get(&en) {
+                    Some(r) => r.clone(),
+                    None => return self.err(e, format!("untranslatable: Result with error type {} (not in the spec)", en)),
+                };
+                if n == "Ok" {
+                    let v = self.expr(&c.args[0], env, Some(&wa))?;
+                    let v = self.coerce(e, v, &wa)?;
+                    return Ok(val(format!("({} {})", ctors.1, v.t), Ty::Res(Box::new(v.ty.strip_into().clone()), Box::new(we))));
+                } else {
+                    let v = self.expr(&c.args[0], env, Some(&we))?;
+                    let v = self.coerce(e, v, &we)?;
+                    return Ok(val(format!("({} {})", ctors.2, v.t), Ty::Res(Box::new(wa), Box::new(we))));
+                }
+            }
             if n == "Some" && c.args.len() == 1 {
                 let inner = match exp {
                     Some(Ty::Opt(t)) => Some((**t).clone()),
@@ -2145,8 +2640,12 @@ impl<'a> Tr<'a> {
             }
             if segs[1] == "default" && c.args.is_empty() {
                 if let Some(d) = self.ctx.defaults.get(&tn) {
-                    if self.ctx.types.contains_key(&tn) {
-                        return Ok(val(d.clone(), Ty::Named(tn)));
+                    if let Some(ti) = self.ctx.types.get(&tn) {
+                        let ty = match &ti.kind {
+                            TypeKind::Transparent(inner) if *inner != Ty::Unknown => inner.clone(),
+                            _ => Ty::Named(tn),
+                        };
+                        return Ok(val(d.clone(), ty));
                     }
                 }
             }
@@ -2227,7 +2726,34 @@ impl<'a> Tr<'a> {
                 return self.err(e, "untranslatable: `contains` on this range");
             }
         }
+        // `text.parse().map_err(|_| E)`: the number parser is a parameter (`num_of`), as in the hand model
+        if m == "map_err" && mc.args.len() == 1 {
+            if let Expr::MethodCall(inner) = strip_parens(&mc.receiver) {
+                if inner.method == "parse" && inner.args.is_empty() {
+                    let txt = self.expr(&inner.receiver, env, None)?;
+                    let cl = match &mc.args[0] {
+                        Expr::Closure(c) if c.inputs.len() == 1 && matches!(c.inputs[0], Pat::Wild(_)) => c,
+                        _ => return self.err(e, "untranslatable: `map_err` with this closure"),
+                    };
+                    let ev = self.expr(&cl.body, env, None)?;
+                    let (en, parse_fn) = match (&ev.ty, &txt.ty, self.ctx.consts.get("str::parse::<f64>")) {
+                        (Ty::Named(x), Ty::List(t), Some(pf)) if **t == Ty::Int => (x.clone(), pf.clone()),
+                        _ => return self.err(e, "untranslatable: `parse().map_err(..)` on these types"),
+                    };
+                    self.check_ambient_use(e, &parse_fn, self.f)?;
+                    return match self.ctx.results.get(&en) {
+                        Some(r) => Ok(val(format!("(match {} {} with Some tr_x => {} tr_x | None => {} {} end)", parse_fn, txt.t, r.1, r.2, ev.t), Ty::Res(Box::new(Ty::F64), Box::new(ev.ty.clone())))),
+                        None => self.err(e, "untranslatable: Result error type not in the spec"),
+                    };
+                }
+            }
+        }
         let recv = self.expr(&mc.receiver, env, None)?;
+        if recv.ty == Ty::Int && mc.args.is_empty() {
+            if let Some(fname) = self.ctx.consts.get(&format!("u8::{}", m)) {
+                return Ok(val(format!("({} {})", fname, recv.t), Ty::Bool));
+            }
+        }
         let spec_call = |i: usize, recv: Val| -> R<Val> {
             let args = self.args_for(i, Some(recv), &mc.args, env, e)?;
             let mut exprs: Vec<Expr> = vec![(*mc.receiver).clone()];
@@ -2296,7 +2822,7 @@ impl<'a> Tr<'a> {
                 let n = mc.args.len();
                 match (m.as_str(), n) {
                     // the same elements in the same order (capacities are not modelled)
-                    ("clone", 0) | ("iter", 0) | ("into_iter", 0) | ("copied", 0) | ("cloned", 0) | ("collect", 0) | ("elements", 0) | ("as_slice", 0) | ("to_vec", 0) => Ok(recv),
+                    ("clone", 0) | ("iter", 0) | ("into_iter", 0) | ("copied", 0) | ("cloned", 0) | ("collect", 0) | ("elements", 0) | ("as_slice", 0) | ("to_vec", 0) | ("as_bytes", 0) => Ok(recv),
                     ("is_empty", 0) => Ok(val(format!("(match {} with [] => true | _ => false end)", recv.t), Ty::Bool)),
                     ("len", 0) => Ok(val(format!("(length {})", recv.t), Ty::Nat)),
                     ("get", 1) => {
@@ -2368,6 +2894,17 @@ impl<'a> Tr<'a> {
                     Some(d) => Ok(val(format!("(match {} with Some tr_x => tr_x | None => {} end)", recv.t, d), (**inner).clone())),
                     None => self.err(e, format!("untranslatable: `unwrap` of an option of {} (no panic default in the spec)", inner.show())),
                 },
+                ("ok_or", 1) => {
+                    let ev = self.expr(&mc.args[0], env, None)?;
+                    let en = match &ev.ty {
+                        Ty::Named(x) => x.clone(),
+                        t => return self.err(e, format!("untranslatable: `ok_or` with an error of type {}", t.show())),
+                    };
+                    match self.ctx.results.get(&en) {
+                        Some(r) => Ok(val(format!("(match {} with Some tr_x => {} tr_x | None => {} {} end)", recv.t, r.1, r.2, ev.t), Ty::Res(inner.clone(), Box::new(ev.ty.clone())))),
+                        None => self.err(e, format!("untranslatable: Result with error type {} (not in the spec)", en)),
+                    }
+                }
                 ("unwrap_or_default", 0) => {
                     let d = match &**inner {
                         Ty::Named(n) => self.ctx.defaults.get(n).cloned(),
@@ -2427,6 +2964,8 @@ impl<'a> Tr<'a> {
             ("acos", 0) => un("facos"),
             ("ln", 0) => un("fln"),
             ("recip", 0) => Ok(val(format!("(f1 / {})", x), Ty::F64)),
+            // f64::to_radians: multiplication by the constant PI / 180.0
+            ("to_radians", 0) => Ok(val(format!("({} * (fpi / (fofZ 180)))", x), Ty::F64)),
             ("is_finite", 0) => Ok(val(format!("(fis_finite {})", x), Ty::Bool)),
             ("is_nan", 0) => Ok(val(format!("(fis_nan {})", x), Ty::Bool)),
             ("sin_cos", 0) => Ok(val(format!("(fsin {}, fcos {})", x, x), Ty::Tuple(vec![Ty::F64, Ty::F64]))),
@@ -2662,7 +3201,17 @@ fn collect_mut(e: &Expr, assigned: &mut Vec<String>, declared: &mut Vec<String>,
         fn visit_pat_ident(&mut self, x: &'ast syn::PatIdent) {
             self.d.push(x.ident.to_string());
         }
-        fn visit_expr_closure(&mut self, _: &'ast syn::ExprClosure) {}
+        fn visit_expr_closure(&mut self, c: &'ast syn::ExprClosure) {
+            // a callback that pushes onto an outer path: `|a, b, c| { X.curve_to(a, b, c); }`
+            let t = norm_tokens(&*c.body);
+            if let Some(pos) = t.find(".curve_to(") {
+                let head = t[..pos].trim_start_matches('{').to_string();
+                let root = head.split('.').next().unwrap_or("").to_string();
+                if !root.is_empty() && root.chars().all(|ch| ch.is_alphanumeric() || ch == '_') {
+                    self.a.push(root);
+                }
+            }
+        }
         fn visit_item(&mut self, _: &'ast syn::Item) {}
     }
     let mut v = V { a: assigned, d: declared, mm: mut_methods };
